@@ -5,11 +5,11 @@
 package c14
 
 import (
-	"github.com/goatcms/goatcore/zzverif/vsched"
-	"github.com/goatcms/goatcore/app"
-	"os"
 	"encoding/json"
 	"fmt"
+	"github.com/goatcms/goatcore/app"
+	"github.com/goatcms/goatcore/zzverif/vsched"
+	"os"
 	"sort"
 	"strings"
 
@@ -23,27 +23,27 @@ import (
 
 // TaskSpec is one submitted task.
 type TaskSpec struct {
-	Name  string   `json:"name"`
-	Wait  []string `json:"wait,omitempty"`
-	Fail  string   `json:"fail,omitempty"`  // "" | return1 | append1 | return2 (which command fails and how)
-	Yield int      `json:"yield,omitempty"` // scheduling points inside each command
-	Nest  string   `json:"nest,omitempty"`  // name of a task the body submits itself (pip:run) after its first command
-	NestFail bool  `json:"nest_fail,omitempty"`
-	WLock string   `json:"wlock,omitempty"`
-	RLock string   `json:"rlock,omitempty"`
-	One   bool     `json:"one_command,omitempty"` // the body is a single command
-	Separated bool `json:"separated_scope,omitempty"` // submitted in a scope with its own context (as pip:try bodies are)
-	Sandbox string `json:"sandbox,omitempty"`     // "" = self | retfail:<id> | retok:<id> (pipx: failure reported only by Run's return value)
+	Name      string   `json:"name"`
+	Wait      []string `json:"wait,omitempty"`
+	Fail      string   `json:"fail,omitempty"`  // "" | return1 | append1 | return2 (which command fails and how)
+	Yield     int      `json:"yield,omitempty"` // scheduling points inside each command
+	Nest      string   `json:"nest,omitempty"`  // name of a task the body submits itself (pip:run) after its first command
+	NestFail  bool     `json:"nest_fail,omitempty"`
+	WLock     string   `json:"wlock,omitempty"`
+	RLock     string   `json:"rlock,omitempty"`
+	One       bool     `json:"one_command,omitempty"`     // the body is a single command
+	Separated bool     `json:"separated_scope,omitempty"` // submitted in a scope with its own context (as pip:try bodies are)
+	Sandbox   string   `json:"sandbox,omitempty"`         // "" = self | retfail:<id> | retok:<id> (pipx: failure reported only by Run's return value)
 }
 
 // Spec of a program.
 type Spec struct {
-	Tasks []TaskSpec `json:"tasks"`
-	Ghost bool       `json:"ghost_wait,omitempty"` // additionally submit a task that waits for an unknown task
-	Split bool       `json:"split,omitempty"`      // large program: its schedule tree is divided among all workers
-	ManagerRace bool `json:"manager_race,omitempty"` // two goroutines ask for the scope's task manager for the first time at once
-	Concurrent bool  `json:"concurrent_submission,omitempty"` // every task is submitted from its own goroutine (first submissions race on the scope's manager)
-	Bound int        `json:"bound"`
+	Tasks       []TaskSpec `json:"tasks"`
+	Ghost       bool       `json:"ghost_wait,omitempty"`            // additionally submit a task that waits for an unknown task
+	Split       bool       `json:"split,omitempty"`                 // large program: its schedule tree is divided among all workers
+	ManagerRace bool       `json:"manager_race,omitempty"`          // two goroutines ask for the scope's task manager for the first time at once
+	Concurrent  bool       `json:"concurrent_submission,omitempty"` // every task is submitted from its own goroutine (first submissions race on the scope's manager)
+	Bound       int        `json:"bound"`
 }
 
 type obs struct {
@@ -55,6 +55,7 @@ type obs struct {
 	done      bool
 	infra     string
 	race      string
+	phase     string
 }
 
 func body(t TaskSpec) string {
@@ -175,6 +176,21 @@ func build(sp Spec, o *obs) func() {
 			}
 		}
 		w.Root.Wait()
+		// every task has finished: every named resource must be free again (a lock taken for a task that
+		// gave up, or by a helper goroutine nobody listens to any more, would block all later holders)
+		o.phase = "release-check"
+		var names []string
+		for _, t := range sp.Tasks {
+			for _, r := range strings.Split(t.WLock+","+t.RLock, ",") {
+				if r != "" {
+					names = append(names, r)
+				}
+			}
+		}
+		sort.Strings(names)
+		for _, r := range names {
+			w.Mutex.Lock(commservices.LockMap{r: commservices.LockRW}).Unlock()
+		}
 		o.done = true
 	}
 }
@@ -183,6 +199,9 @@ func judge(sp Spec, o *obs) func(x *explore.Exec) *explore.Verdict {
 	return func(x *explore.Exec) *explore.Verdict {
 		if o.infra != "" {
 			return &explore.Verdict{Kind: "harness-error", Clause: "", Detail: o.infra}
+		}
+		if !o.done && o.phase == "release-check" {
+			return &explore.Verdict{Kind: "resource-never-released", Clause: "acquisition never deadlocks: any set of holders always all get their turn", Detail: "all tasks have finished, but a write lock on one of the resources they named can not be taken any more (a lock acquired on behalf of a task was never released)\nevents: " + o.w.Render()}
 		}
 		if !o.done {
 			return &explore.Verdict{Kind: "not-finished", Clause: "every accepted submission eventually finishes and waiting on the task manager returns", Detail: "TasksManager.Wait (or the root scope's Wait) never returned"}
@@ -474,6 +493,13 @@ func LockWaitPrograms(thorough bool) []Spec {
 		b = 1
 	}
 	ps = append(ps, Spec{Tasks: []TaskSpec{x, y}, Bound: b + 1})
+	// a holder that fails (ending the shared context) while another task waits for its resource: the
+	// waiting task may be cancelled, the resource must be free afterwards
+	h, wt := t("a"), t("b")
+	h.WLock, wt.WLock, h.Yield, h.Fail = "res", "res", 1, "return1"
+	ps = append(ps, Spec{Tasks: []TaskSpec{h, wt}, Bound: b})
+	wt.WLock, wt.RLock = "", "res"
+	ps = append(ps, Spec{Tasks: []TaskSpec{h, wt}, Bound: 0})
 	return ps
 }
 
@@ -576,6 +602,6 @@ func replay(wj json.RawMessage) (*fw.Violation, error) {
 func init() {
 	fw.Register(&fw.Check{ID: "C14", Level: "model_checking",
 		Rule: "programs = task graphs on 2-3 tasks (all wait shapes incl. diamonds and chains) x failing command variants (first/second command returns an error; a command appends an error to its scope) x body durations x a submission waiting for an unknown task, for itself, or for a task submitted later x nested pip:run from inside a body x write/read resource locks (also combined with wait lists) x a sandbox that reports its outcome only through its return value x tasks submitted in a scope with its own context x two concurrent first requests for the scope's task manager; a mock application (terminal, common, open-container and pipeline modules) is bootstrapped per execution, tasks are submitted through the real Runner and run in the real self sandbox (terminal read-execute loop) with probe commands; every schedule with <= bound preemptions (quick: free context switches at blocking points only, chains and two-task graphs; thorough: 1 preemption for chains and two-task graphs, free switches for three-task graphs with concurrent tasks) with a happens-before state cache; oracle on the probe event log. states = distinct schedule traces",
-		Run: run, Replay: replay,
+		Run:  run, Replay: replay,
 		Assumptions: []string{"tasks under one parent scope share its context: after any failure a sibling body may be cut short (prefix), which the statement does not forbid; only order, never-after-failure and the results are judged", "a command that reports its error through AppendError and returns nil does not stop its own loop deterministically (select between done and the next line); only commands that return an error must stop the body"}})
 }
